@@ -54,6 +54,7 @@ Unary(x) ==
                                          /\ Holds(b, Denote(x))}}   \* (exact PSD test: 2^n minors, dims <= 4)
           ELSE {})
     \cup (IF "SelfProd" \in Acts THEN {N("SelfProd", <<x>>, NoP)} ELSE {})
+    \cup (IF "GramWin" \in Acts THEN {N("GramWinH", <<x>>, NoP), N("GramWinT", <<x>>, NoP)} ELSE {})
     \cup (IF "Gram" \in Acts
           THEN {N("GramT", <<x>>, NoP), N("GramH", <<x>>, NoP), N("GramHr", <<x>>, NoP)} ELSE {})
     \cup (IF "op_getitem" \in Acts
